@@ -397,3 +397,37 @@ PROPS["C17"]["claim"] += (
     "comprehensions over sets and filter() modelled), and _GroupDecomposedSearchSpace.calculate returns a fresh deep copy whose "
     "groups cover every parameter of every CURRENT trial of interest read from the (abstract) storage.")
 
+
+PROPS["C14"] = dict(
+    modules=["contracts.exhaustive"], bounded=["bounded.exhaustive_lattice"], level="exploration",
+    technique="contract-based deductive verification (pyvc: VCs from the real AST, z3) for the integer/categorical candidate "
+              "enumeration; everything else of C14 only by a BOUNDED run-time stand-in on the real code (labelled bounded, not proved)",
+    claim="Proved for all inputs: _enumerate_candidates of an IntDistribution is exactly low, low+step, ... <= high in order, each "
+          "once, and of a CategoricalDistribution exactly the indices 0..n-1. BOUNDED (not proved): stepped-float candidates equal "
+          "the exact rational grid on a lattice of 280 (low, high, step) triples; BruteForceSampler evaluates every reachable "
+          "combination exactly once and stops by itself on 7 tree-shaped define-by-run programs x seeds x {plain, failing trials, "
+          "run split across two sampler objects}; GridSampler evaluates every grid point once, also when interrupted and "
+          "resumed with a fresh default-seed sampler.",
+    note="the _TreeNode reconstruction (numpy, recursion over trial history) and itertools grids are outside the VC generator; "
+         "inside the stated bound the run is exhaustive, outside it nothing is claimed",
+    assumptions=LIB_ASSUMPTIONS + ["range(a, b, s) is the arithmetic progression (library contract)",
+                                   "bounded part: the real sampler code is executed under the installed numpy"],
+    not_covered=["programs/grids outside the bound", "pruned trials and n_jobs>1", "termination argument for arbitrary trees"],
+)
+PROPS["C09"] = dict(
+    modules=["contracts.exhaustive", "contracts.pruners"],
+    claim="Storage-independence of what samplers/pruners remember about trials, where it sits behind a function boundary: "
+          "HyperbandPruner._get_bracket_id is a pure function of (study name, trial NUMBER, budgets) -- proved for all inputs; "
+          "BaseGASampler.get_parent_population must return the trials whose storage ids were cached on every storage -- this "
+          "obligation FAILS on the unchanged tree (known finding F6: the cache is read back by list position) and is proved "
+          "under the restriction 'every trial id equals its number'.",
+    note="seeded RNG determinism, sampler numerics and whole-run reproducibility across backends are outside contract reach; "
+         "copy_study is not under contract",
+    assumptions=LIB_ASSUMPTIONS + ["Study._get_trials(deepcopy=False) lists all current trials ordered by number (C01)",
+                                   "parent-cache entries hold ids of current trials (what get_parent_population itself stores)",
+                                   "comprehension elements are evaluated without exception paths (an out-of-range index inside the "
+                                   "comprehension is an arbitrary element, not IndexError)"],
+    not_covered=["RNG/float determinism of every sampler", "TPE group ordering (set iteration order, PYTHONHASHSEED)", "copy_study",
+                 "GridSampler/QMC id memory", "split of a run into several optimize calls"],
+    witnesses={"BaseGASampler.get_parent_population:post/ok/ret0": "witnesses.f6"},
+)
